@@ -380,6 +380,10 @@ def mv_data(d, ncol):
         elif d == 'TEXT':
             df = mv_data('A', ncol).copy().astype(object)
             df.iloc[2, 0] = 'x'
+        elif d == 'BOOL':                   # homogeneous non-numeric data with a non-object dtype
+            df = mv_data('A', ncol) > 0.5
+        elif d == 'DATE':
+            df = mv_data('A', ncol).apply(lambda c: pd.to_datetime((c * 1e9).astype('int64')))
         else:
             raise KeyError(d)
         _M[key] = df
@@ -398,7 +402,7 @@ class GaussBinding(Binding):
     kind = 'gauss'
     rejects = True
     valid = ('A', 'B', 'K1')
-    invalid = ('NAN', 'EMPTY', 'TEXT')
+    invalid = ('NAN', 'EMPTY', 'TEXT', 'BOOL', 'DATE')
     cfgs = ('c1', 'c2')
 
     def __init__(self, ncol, conditional=False):
@@ -454,7 +458,7 @@ class VineBinding(Binding):
     rejects = True
     unfitted_dict_ok = True
     valid = ('A', 'B')
-    invalid = ('NAN', 'EMPTY', 'TEXT')
+    invalid = ('NAN', 'EMPTY', 'TEXT', 'BOOL', 'DATE')
     methods = ('pdf',)
     json_ok = False
 
